@@ -323,9 +323,9 @@ func c12RunWriteOnce(cfg c12Config, k int) explore.Result {
 			got[m.Key]++
 		}
 	}
-	for k := range want {
-		if got[k] != 1 {
-			res.Fail("parameter-status-missing", fmt.Sprintf("write %d of the start-up reply failed once: the client was told ReadyForQuery (reply %q) but ParameterStatus %q arrived %d times", k, kinds, k, got[k]))
+	for name := range want {
+		if got[name] != 1 {
+			res.Fail("parameter-status-missing", fmt.Sprintf("write %d of the start-up reply failed once: the client was told ReadyForQuery (reply %q) but ParameterStatus %q arrived %d times", k, kinds, name, got[name]))
 			break
 		}
 	}
